@@ -1,6 +1,8 @@
 import Poulpy.Driver.Util
 import Poulpy.Model.Ckks
 import Poulpy.Model.CkksData
+import Poulpy.Model.CkksMulData
+import Poulpy.Driver.Ep
 /-!
 Wire format of the `ckks` command (model side; `harness/src/cmd_ckks.rs` prints the same form).
 
@@ -144,7 +146,12 @@ def parseG (base2k n size : Nat) (s : String) : Core.GLWE :=
 def showG (g : Core.GLWE) : String :=
   ".".intercalate ((g.cols.flatten.flatten).map toString)
 
-def parseLOp (t : String) : Option LOp :=
+/-- the limbs of a ZNX plaintext operand: `pt.size` limbs of `n` coefficients, `.`-joined (`-`: none) -/
+def parsePt (n : Nat) (pt : Pt) (s : String) : List (List Int) :=
+  if s == "-" || s.isEmpty then []
+  else chunks n pt.size (((s.splitOn ".").filter (fun t => !t.isEmpty)).map int!)
+
+def parseLOp (n : Nat) (t : String) : Option LOp :=
   match t.splitOn "," with
   | ["add", d, a, b] => some (.add false (nat! d) (nat! a) (nat! b))
   | ["sub", d, a, b] => some (.add true (nat! d) (nat! a) (nat! b))
@@ -159,11 +166,16 @@ def parseLOp (t : String) : Option LOp :=
   | ["rescale", d, k, a] => some (.rescale (nat! d) (nat! k) (nat! a))
   | ["rescale_assign", d, k] => some (.rescaleAssign (nat! d) (nat! k))
   | ["align", a, b] => some (.align (nat! a) (nat! b))
+  | ["add_pt_znx", d, a, pd, pb, pq, l] => some (.addPt false (nat! d) (nat! a) ⟨⟨nat! pd, nat! pb⟩, nat! pq⟩ (parsePt n ⟨⟨nat! pd, nat! pb⟩, nat! pq⟩ l))
+  | ["sub_pt_znx", d, a, pd, pb, pq, l] => some (.addPt true (nat! d) (nat! a) ⟨⟨nat! pd, nat! pb⟩, nat! pq⟩ (parsePt n ⟨⟨nat! pd, nat! pb⟩, nat! pq⟩ l))
+  | ["add_pt_znx_assign", d, pd, pb, pq, l] => some (.addPtAssign false (nat! d) ⟨⟨nat! pd, nat! pb⟩, nat! pq⟩ (parsePt n ⟨⟨nat! pd, nat! pb⟩, nat! pq⟩ l))
+  | ["sub_pt_znx_assign", d, pd, pb, pq, l] => some (.addPtAssign true (nat! d) ⟨⟨nat! pd, nat! pb⟩, nat! pq⟩ (parsePt n ⟨⟨nat! pd, nat! pb⟩, nat! pq⟩ l))
   | _ => none
 
 def LOp.dstSlot : LOp → Nat
   | .add _ d _ _ | .addAssign _ d _ | .neg d _ | .negAssign d | .mulPow2 d _ _ | .mulPow2Assign d _
-  | .divPow2 d _ _ | .divPow2Assign d _ | .rescale d _ _ | .rescaleAssign d _ | .align d _ => d
+  | .divPow2 d _ _ | .divPow2Assign d _ | .rescale d _ _ | .rescaleAssign d _ | .align d _
+  | .addPt _ d _ _ _ | .addPtAssign _ d _ _ => d
 
 def showSlot (p : DPool) (d : Nat) : String :=
   match p[d]? with
@@ -175,20 +187,70 @@ def showDst (p : DPool) : LOp → String
   | .align a b => showSlot p a ++ "/" ++ showSlot p b
   | op => showSlot p (LOp.dstSlot op)
 
-/-- the data-path run: outcome and metadata from the data model itself (`dstep`; its metadata transition is the
-one of `stepR`), continuing after `Err` with the pool the failed call leaves -/
-def runData (env : Env) (N : Nat) : DPool → List String → List String → List String
+def pt! (pd pb pq : String) : Pt := ⟨⟨nat! pd, nat! pb⟩, nat! pq⟩
+
+/-- the multiplicative and composite calls (`Model/CkksMulData.lean`); a plaintext carries its limbs as last field -/
+def parseXOp (n : Nat) (t : String) : Option XOp :=
+  match parseLOp n t with
+  | some op => some (.lin op)
+  | none =>
+    match t.splitOn "," with
+    | ["mul", d, a, b] => some (.mul (nat! d) (nat! a) (nat! b))
+    | ["mul_assign", d, a] => some (.mulAssign (nat! d) (nat! a))
+    | ["square", d, a] => some (.square (nat! d) (nat! a))
+    | ["square_assign", d] => some (.squareAssign (nat! d))
+    | ["mul_pt_znx", d, a, pd, pb, pq, l] => some (.mulPt (nat! d) (nat! a) (pt! pd pb pq) (parsePt n (pt! pd pb pq) l))
+    | ["mul_pt_znx_assign", d, pd, pb, pq, l] => some (.mulPtAssign (nat! d) (pt! pd pb pq) (parsePt n (pt! pd pb pq) l))
+    | "add_many" :: d :: as => some (.addMany (nat! d) (as.map nat!))
+    | "dot_ct" :: d :: k :: rest =>
+      let k := nat! k
+      if rest.length = 2 * k then some (.dotCt (nat! d) ((rest.take k).map nat!) ((rest.drop k).map nat!)) else none
+    | "dot_pt_znx" :: d :: k :: rest =>
+      let k := nat! k
+      match rest.drop k with
+      | [pd, pb, pq, l] => some (.dotPt (nat! d) ((rest.take k).map nat!) (pt! pd pb pq) ((l.splitOn "_").map (parsePt n (pt! pd pb pq))))
+      | _ => none
+    | _ => none
+
+def XOp.dstSlot : XOp → Nat
+  | .lin op => LOp.dstSlot op
+  | .mul d _ _ | .mulAssign d _ | .square d _ | .squareAssign d | .mulPt d _ _ _ | .mulPtAssign d _ _
+  | .addMany d _ | .dotCt d _ _ | .dotPt d _ _ _ => d
+
+def showDstX (p : DPool) : XOp → String
+  | .lin op => showDst p op
+  | op => showSlot p (XOp.dstSlot op)
+
+/-- the data-path run: outcome and metadata from the data model itself (`dstep` / `xstep`; its metadata transition is
+the one of `stepR`), continuing after `Err` with the pool the failed call leaves (linear fragment; after an `Err` of a
+multiplication or composite the limbs are not compared any more: `#?`) -/
+def runData (env : Env) (N : Nat) (mk : MulKey) : DPool → List String → List String → List String
   | _, [], acc => acc.reverse
   | pool, t :: rest, acc =>
-    match parseLOp t with
+    match parseXOp N t with
     | none => ("bad-op" :: acc).reverse
     | some op =>
-      match dstep env N pool op with
-      | .ok p => runData env N p rest (("ok@" ++ showPool p.cts ++ "#" ++ showDst p op) :: acc)
+      match xstep env N mk pool op with
+      | .ok p => runData env N mk p rest (("ok@" ++ showPool p.cts ++ "#" ++ showDstX p op) :: acc)
       | .err e =>
-        let p := dstepErrPool env N pool op
-        runData env N p rest (("err:" ++ e ++ "@" ++ showPool p.cts ++ "#" ++ showDst p op) :: acc)
+        match op with
+        | .lin lop =>
+          let p := dstepErrPool env N pool lop
+          runData env N mk p rest (("err:" ++ e ++ "@" ++ showPool p.cts ++ "#" ++ showDst p lop) :: acc)
+        | _ => (("err:" ++ e ++ "@" ++ "#?") :: acc).reverse
       | .panic c => (("panic:" ++ c) :: acc).reverse
+
+/-- `key=base2k,colsIn,colsOut,dsize,dnum,size:ints` (cells in (row, input column) order) -/
+def parseKey (n : Nat) (s : String) : Core.GGLWE :=
+  match s.splitOn ":" with
+  | [hd, body] =>
+    match (hd.splitOn ",").map nat! with
+    | [gb, colsIn, colsOut, dsize, dnum, gsize] =>
+      let gd := ((body.splitOn ".").filter (fun t => !t.isEmpty)).map int!
+      let cells := (Drv.Ep.chunk (colsOut * gsize * n) gd).map (Drv.Ep.mkCols n colsOut gsize)
+      { base2k := gb, n := n, colsIn := colsIn, colsOut := colsOut, dsize := dsize, dnum := dnum, size := gsize, cells := cells }
+    | _ => { base2k := 0, n := n, colsIn := 0, colsOut := 0, dsize := 1, dnum := 0, size := 0, cells := [] }
+  | _ => { base2k := 0, n := n, colsIn := 0, colsOut := 0, dsize := 1, dnum := 0, size := 0, cells := [] }
 
 def handle (ts : List String) : String :=
   let env : Env := ⟨kvNat ts "base2k", kvInts ts "keys", kvNat ts "maxprec"⟩
@@ -198,7 +260,8 @@ def handle (ts : List String) : String :=
   | some d =>
     let n := kvNat ts "n"
     let dpool : DPool := (pool.zip (d.splitOn "/")).map (fun (c, s) => ⟨parseG env.base2k n c.size s, c.md⟩)
-    "|".intercalate (runData env n dpool ops [])
+    let mk : MulKey := ⟨kvNat ts "big" == 1, parseKey n ((kv ts "key").getD "")⟩
+    "|".intercalate (runData env n mk dpool ops [])
   | none => "|".intercalate (runAll env pool ops [])
 
 end Drv.Ckks
